@@ -301,6 +301,40 @@ fn fixed_scenarios<R: Rng>(rng: &mut R) -> Vec<Vec<FileSpec>> {
     out
 }
 
+/// Refusal scenarios that do not depend on the seed: a file of another run first / in the middle / last by
+/// initial timestamp among three and four files, a duplicated initial timestamp between neighbours and between
+/// the ends, an unknown extension at each place (every argument order is tried for refusals).
+fn fixed_refusals<R: Rng>(rng: &mut R) -> Vec<(Vec<FileSpec>, &'static str)> {
+    let mk = |rng: &mut R, n: usize| -> Vec<FileSpec> {
+        (0..n)
+            .map(|k| FileSpec {
+                init: 2000 + 10 * k as u32,
+                fin: 2000 + 10 * k as u32 + 10,
+                ext: if k % 2 == 0 { "mid" } else { "mid.lz4" },
+                run: 9000,
+                events: vec![Event { id: 1, serial: k as u32, ts: 1, banks: vec![trg_bank(1000 * (k as u32 + 1), rng)] }],
+            })
+            .collect()
+    };
+    let mut out = Vec::new();
+    for n in [3usize, 4] {
+        for k in 0..n {
+            let mut f = mk(rng, n);
+            f[k].run = 9001;
+            out.push((f, "mixed-runs"));
+            let mut f = mk(rng, n);
+            f[k].ext = "mid.gz";
+            out.push((f, "bad-ext"));
+        }
+        for (a, b) in [(0usize, 1usize), (0, n - 1), (1, n - 1)] {
+            let mut f = mk(rng, n);
+            f[b].init = f[a].init;
+            out.push((f, "dup-init"));
+        }
+    }
+    out
+}
+
 pub fn run(runner: &mut Runner, bindir: &Path, work: &Path, seed: u64, count: u64, quick: bool, system: Option<&str>) {
     let mut rng = rng_from(seed, 19);
     let mut scenarios: Vec<(Vec<FileSpec>, &'static str, Vec<u8>)> = Vec::new();
@@ -308,6 +342,7 @@ pub fn run(runner: &mut Runner, bindir: &Path, work: &Path, seed: u64, count: u6
         scenarios.extend(system_scenarios(&mut rng, p));
     }
     scenarios.extend(fixed_scenarios(&mut rng).into_iter().map(|f| (f, "none", vec![])));
+    scenarios.extend(fixed_refusals(&mut rng).into_iter().map(|(f, k)| (f, k, vec![])));
     for _ in 0..count {
         let (files, fault) = scenario_files(&mut rng, quick);
         scenarios.push((files, fault, vec![]));
